@@ -106,6 +106,20 @@ N('nb_wordlist_ground_facts', 'src/mnemonic/wordlist.rs', 'Wordlist::{parse,sear
   'exhaustive over the 2048 embedded words (finite constant) + 5 near misses per word')
 
 # ---------------------------------------------------------------------------
+# C10 — EIP-191 personal message digest
+VERUS.append(dict(
+    name='message', template='contracts/verus/message.rs', props={'C10': Q, 'C17': Q}, rlimit=30,
+    pairs={'digest': r'c10_digest_len\d+$'},
+))
+for _l in (0, 1, 9, 10, 11):
+    K(f'c10_digest_len{_l}', 'src/message.rs', 'message::digest / EthereumMessage::signing_message', {'C10': Q if _l in (0, 1, 10) else T},
+      f'for all messages of {_l} bytes: exactly one Keccak call whose input is 0x19 "Ethereum Signed Message:\\n" ++ decimal length ++ message, and its result is returned (pairing for the unbounded Verus obligation; real std formatting)',
+      complete=False, bound=f'message length {_l}, content symbolic', replay='none')
+N('nb_eip191_lengths', 'src/message.rs', 'message::digest', {'C10': Q},
+  'digest(m) == Keccak-256(0x19 "Ethereum Signed Message:\\n" ++ hand-written decimal length ++ m) with the real formatting and hashing code',
+  'native: every length 0..=1100 and 10^k-1, 10^k, 10^k+1 for k = 3..6; three contents each (zeros, 0xff, byte ramp)')
+
+# ---------------------------------------------------------------------------
 # C14 — HD path text
 PATHF = 'src/hdk/path.rs'
 for _l in range(0, 13):
@@ -164,10 +178,18 @@ NOT_APPLICABLE = {
     'C05': 'try_sign is a single call into k256 RFC 6979 signing; validity, recoverability, low-s and RFC 6979 equality are theorems about secp256k1/HMAC-DRBG in the dependency that neither installed verifier can express',
 }
 _PENDING = 'check not built yet in this session (see DESIGN.md for the planned contracts)'
-for _p in ('C04', 'C06', 'C08', 'C09', 'C10', 'C11', 'C13', 'C15', 'C16', 'C17', 'C18', 'C19', 'C20'):
+for _p in ('C04', 'C06', 'C08', 'C09', 'C11', 'C13', 'C16', 'C17', 'C18', 'C19', 'C20'):
     NOT_APPLICABLE.setdefault(_p, _PENDING)
 
 PROPS = {
+    'C10': dict(level='proof',
+                technique='Verus proof of the extracted message::digest against the EIP-191 preimage spec (Keccak uninterpreted) + Kani pairings + native stand-in for the assumed std formatting contract',
+                claim='For byte strings of every length the value returned by message::digest is Keccak-256 applied to exactly 0x19 "Ethereum Signed Message:\\n" ++ decimal(len) ++ message (Verus, unbounded; the prefix literal is taken from the source text each run). EthereumMessage::signing_message delegates to it (Kani pairings, lengths 0/1/10 with symbolic content).',
+                note='Assumed in the Verus unit: ethdigest::Digest::of computes Keccak-256 of its argument (uninterpreted function); `write!(vec, "{}", n)` appends the decimal digits of n and cannot fail (std; checked natively for every length 0..=1100 and powers of ten up to 10^6, and by Kani with the real std code at lengths 0,1,10); Vec::with_capacity yields an empty vector; slices are at most isize::MAX bytes.'),
+    'C15': dict(level='proof',
+                technique='Kani/CBMC contracts on the real Signature::from_str / Display over all 130- and 132-character strings and all other lengths <= 140, hex decoder and ethnum LowerHex as cross-checked callee contracts',
+                claim='Signature::from_str is proved for every ASCII string of 0..140 characters: accepted iff optional 0x + 130 hex digits with v in {27,28} and r, s in [1, n-1], the parsed (r, s, yParity) being the written values, everything else rejected without panic; Display is proved to print 0x, 64+64 lower-case digits and 1b/1c for every valid signature, so parse(print(s)) == s by composition.',
+                note='Callee contracts: hex::decode_to_slice (proved on the real hex crate for all 130-byte inputs in the same run), ethnum U256 LowerHex under {:064x}/{:02x} (assumed: symbolic ethnum formatting exceeds the CBMC budget), k256 from_scalars range check runs for real. Non-ASCII text, and the sign/hash command pipeline (clap, stdout) are not decided here; the `hash transaction --signature` data flow is part of C16. Quick tier uses the modular harnesses; thorough adds the monolithic ones with the real hex decoder inside from_str.'),
     'C01': dict(level='proof',
                 technique='Kani/CBMC contracts on the real from_phrase_str / to_phrase / mnemonic_to_byte_length with callee contracts (word lookup, SHA-256, splitting) as recording stubs; native bounded stand-ins close the composition',
                 claim='For every word count 0..40 (one complete harness each, all 2048^n index sequences, all lookup verdicts, all hash values) from_phrase_str accepts iff the count is 12/15/18/21/24, every word is in the list and the trailing ENT/32 bits equal the leading hash bits, and then stores exactly the BIP-39 entropy||hash; to_phrase / mnemonic_length are proved for all buffers of the five sizes; a lemma shows the two layouts inverse. The length table is proved for all usize.',
